@@ -11,7 +11,7 @@ from __future__ import annotations
 import numpy as np
 
 PROP = "C34"
-N = {"quick": 2500, "thorough": 200000}
+N = {"quick": 2500, "thorough": 150000}
 WORKERS = {"quick": 4, "thorough": 16}
 TIMEOUT = {"quick": 600, "thorough": 3000}
 RULE = ("clustered point sets in 1-3 dimensions: 1-8 clusters of 1-5 members, cluster diameter "
